@@ -169,6 +169,21 @@ inline void apply_op(Scenario& s, const Corpus& corpus, const std::vector<std::s
       const int k = (int)(((num(3) % N_REPL) + N_REPL) % N_REPL);
       d.replace(tk.first, tk.second - tk.first, REPLACEMENTS[k]);
       damaged("replace_token");
+   } else if (op == "del") {
+      // lost bytes
+      if (!d.empty()) { const size_t p = (size_t)(((num(1) % (long long)d.size()) + (long long)d.size()) % (long long)d.size()); const size_t n = std::min<size_t>((size_t)(num(2) & 15) + 1, d.size() - p); d.erase(p, n); damaged("delete_bytes"); }
+   } else if (op == "tokglue") {
+      // tokglue LINE FIELD KIND : like tok, and the white space in front of the token is lost ("Q= 1.0E+03" -> "Q=<replacement>")
+      auto ls = line_starts(d);
+      std::vector<std::pair<size_t, std::vector<std::pair<size_t, size_t>>>> cand;
+      for (size_t i = 0; i < ls.size(); ++i) { auto tk = tokens_of(d, ls[i], line_end(d, ls[i])); if (tk.size() >= 2) cand.push_back({i, tk}); }
+      if (cand.empty()) return;
+      auto& c = cand[(size_t)(((num(1) % (long long)cand.size()) + (long long)cand.size()) % (long long)cand.size())];
+      const size_t f = 1 + (size_t)(((num(2) % (long long)(c.second.size() - 1)) + (long long)(c.second.size() - 1)) % (long long)(c.second.size() - 1));
+      const int k = (int)(((num(3) % N_REPL) + N_REPL) % N_REPL);
+      const size_t from = c.second[f - 1].second, to = c.second[f].second;
+      d.replace(from, to - from, REPLACEMENTS[k]);
+      damaged("replace_token_glued");
    } else if (op == "hdr") {
       // hdr N KIND : damage the N-th block header
       auto ls = line_starts(d);
@@ -179,7 +194,13 @@ inline void apply_op(Scenario& s, const Corpus& corpus, const std::vector<std::s
       const size_t e = line_end(d, b);
       auto tk = tokens_of(d, b, e);
       std::string nl;
-      switch ((int)(((num(2) % 8) + 8) % 8)) {
+      switch ((int)(((num(2) % 14) + 14) % 14)) {
+      case 8: nl = "Block " + (tk.size() > 1 ? d.substr(tk[1].first, tk[1].second - tk[1].first) : std::string("X")) + " Q=1.0E+03"; break;   // value glued to Q=
+      case 9: nl = "Block " + (tk.size() > 1 ? d.substr(tk[1].first, tk[1].second - tk[1].first) : std::string("X")) + " Q=abc"; break;
+      case 10: nl = "Block " + (tk.size() > 1 ? d.substr(tk[1].first, tk[1].second - tk[1].first) : std::string("X")) + " Q=1e999"; break;
+      case 11: nl = "Block " + (tk.size() > 1 ? d.substr(tk[1].first, tk[1].second - tk[1].first) : std::string("X")) + " Q=-"; break;
+      case 12: nl = "Block " + (tk.size() > 1 ? d.substr(tk[1].first, tk[1].second - tk[1].first) : std::string("X")) + " q= 1.0E+03"; break;
+      case 13: nl = "Block " + (tk.size() > 1 ? d.substr(tk[1].first, tk[1].second - tk[1].first) : std::string("X")) + " Q = 1.0E+03"; break;
       case 0: nl = "Block"; break;                                        // name dropped
       case 1: nl = d.substr(b, e - b) + " Q="; break;                     // Q= without value
       case 2: nl = d.substr(b, e - b) + " Q= nan"; break;
@@ -265,7 +286,8 @@ inline std::vector<std::string> gen_plan(const Corpus& corpus, uint64_t seed, st
    if (mode == 4 || mode == 7) { static const char* const ty[] = {"slha", "gm2calc", "thdm"}; p.push_back(std::string("type ") + ty[r.below(3)]); }
    const size_t nops = 1 + r.below(12);
    auto byte_op = [&]() -> std::string {
-      switch (r.below(6)) {
+      switch (r.below(7)) {
+      case 6: return "del " + std::to_string(r.next() >> 1) + " " + std::to_string(r.below(16));
       case 0: return "trunc " + std::to_string(r.next() >> 1);
       case 1: return "flip " + std::to_string(r.next() >> 1) + " " + std::to_string(r.below(8));
       case 2: return "zero " + std::to_string(r.next() >> 1) + " " + std::to_string(r.below(64));
@@ -275,9 +297,10 @@ inline std::vector<std::string> gen_plan(const Corpus& corpus, uint64_t seed, st
       }
    };
    auto struct_op = [&]() -> std::string {
-      switch (r.below(9)) {
+      switch (r.below(10)) {
+      case 9: return "tokglue " + std::to_string(r.below(400)) + " " + std::to_string(r.below(4)) + " " + std::to_string(r.below(N_REPL));
       case 0: case 1: case 2: return "tok " + std::to_string(r.below(400)) + " " + std::to_string(r.below(4)) + " " + std::to_string(r.below(N_REPL));
-      case 3: return "hdr " + std::to_string(r.below(30)) + " " + std::to_string(r.below(8));
+      case 3: return "hdr " + std::to_string(r.below(30)) + " " + std::to_string(r.below(14));
       case 4: return "dupline " + std::to_string(r.below(400));
       case 5: return "dropline " + std::to_string(r.below(400));
       case 6: return "swaplines " + std::to_string(r.below(400)) + " " + std::to_string(r.below(400));
